@@ -6,7 +6,10 @@
      tu_data_ok csr m    m : list (Code * text) has distinct keys, all valid codes
      code_entries csr m  m with every key replaced by its byte string (append_code)
      wf_entries, cid_ok  the same conditions for maps keyed by byte strings (non-empty, bytes < 256)
-     lookup_cid_opt      LookupCID before the notdef fallback; c_root: the last file of the parent chain
+     lookup_cid_opt      (model) the chain loop of LookupCID, before the notdef fallback
+     parent_opt f c      what the parent chain of f maps c to (None if nothing, or no parent)
+     omit_safe f es      no entry that SetMapping omits on the strength of the parent's NOTDEF answer is
+                         shadowed by f's own notdef entries
      agree_cid, agree_tu what maps.Collect keeps of All() (last pair per code) = lookup, for every code *)
 From Coq Require Import List NArith Permutation Lia ZifyN ZifyNat ZifyBool.
 From GoPdf.Base Require Import Bytes.
@@ -54,16 +57,19 @@ Proof. vm_compute. split; reflexivity. Qed.
 
 (* ---- SetMapping / LookupCID ---------------------------------------------- *)
 
-(* every code looks up to the mapped CID; an unmapped code gives what the parent gives,
-   or without a parent the notdef result *)
+(* every code looks up to the mapped CID; an unmapped code gives what the parent chain maps it to,
+   and otherwise the notdef result of the file itself (LookupNotdefCID: own entries, then the parents').
+   Side condition omit_safe: an entry that SetMapping leaves out because Parent.LookupCID already gives its
+   CID *through the parent's notdef entries* must not be shadowed by the file's own notdef entries
+   (trivially true without parent or without own notdef entries: omit_safe_no_parent, omit_safe_no_own_notdef). *)
 Theorem setmapping_lookup :
   forall csr f data c,
-    prefix_free csr -> cid_data_ok csr data ->
+    prefix_free csr -> cid_data_ok csr data -> omit_safe f (code_entries csr data) ->
     lookup_cid (set_mapping csr f data) c =
     match assoc (code_entries csr data) c with
     | Some v => v
-    | None => match c_parent f with
-              | Some p => lookup_cid p c
+    | None => match parent_opt f c with
+              | Some v => v
               | None => lookup_notdef f c
               end
     end.
@@ -72,7 +78,7 @@ Print Assumptions setmapping_lookup.
 
 Theorem setmapping_lookup_mapped :
   forall csr f data code v,
-    prefix_free csr -> cid_data_ok csr data -> In (code, v) data ->
+    prefix_free csr -> cid_data_ok csr data -> omit_safe f (code_entries csr data) -> In (code, v) data ->
     lookup_cid (set_mapping csr f data) (append_code csr code) = v.
 Proof. exact setmapping_lookup_mapped_lemma. Qed.
 Print Assumptions setmapping_lookup_mapped.
@@ -80,17 +86,57 @@ Print Assumptions setmapping_lookup_mapped.
 (* the same for maps keyed by byte strings (no codec involved) *)
 Theorem setmapping_lookup_bytes :
   forall csr f es c,
-    NoDup (map fst es) -> wf_entries N es -> cid_ok es ->
+    NoDup (map fst es) -> wf_entries N es -> cid_ok es -> omit_safe f es ->
     lookup_cid (set_mapping_bytes csr f es) c =
     match assoc es c with
     | Some v => v
-    | None => match c_parent f with
-              | Some p => lookup_cid p c
+    | None => match parent_opt f c with
+              | Some v => v
               | None => lookup_notdef f c
               end
     end.
 Proof. exact setmapping_lookup_bytes_lemma. Qed.
 Print Assumptions setmapping_lookup_bytes.
+
+(* without the side condition: what the chain loop of LookupCID finds, for every code *)
+Theorem setmapping_lookup_chain :
+  forall csr f es c,
+    NoDup (map fst es) -> wf_entries N es -> cid_ok es ->
+    lookup_cid_opt (set_mapping_bytes csr f es) c =
+    match assoc es c with
+    | Some v => match c_parent f with
+                | Some p => if lookup_cid p c =? v then lookup_cid_opt p c else Some v
+                | None => Some v
+                end
+    | None => parent_opt f c
+    end.
+Proof. exact setmapping_lookup_bytes_weak. Qed.
+Print Assumptions setmapping_lookup_chain.
+
+(* the statement without omit_safe is false (finding cid-setmapping-omits-entry-shadowed-by-own-notdef):
+   parent without notdef entries, file with notdefrange <20>-<60> -> 7, map 50 -> 0: the entry is left out
+   because the parent answers 0, and the file then answers 7 *)
+Definition setmapping_lookup_mapped_full : Prop :=
+  forall csr f data code v,
+    prefix_free csr -> cid_data_ok csr data -> In (code, v) data ->
+    lookup_cid (set_mapping csr f data) (append_code csr code) = v.
+
+Theorem setmapping_lookup_mapped_refuted :
+  exists csr f data code v,
+    prefix_free csr /\ cid_data_ok csr data /\ In (code, v) data /\
+    lookup_cid (set_mapping csr f data) (append_code csr code) <> v.
+Proof. exact setmapping_mapped_refuted. Qed.
+Print Assumptions setmapping_lookup_mapped_refuted.
+
+Theorem omit_safe_without_parent :
+  forall f es, c_parent f = None -> omit_safe f es.
+Proof. exact omit_safe_no_parent. Qed.
+Print Assumptions omit_safe_without_parent.
+
+Theorem omit_safe_without_own_notdef :
+  forall f es, c_nd_singles f = [] -> c_nd_ranges f = [] -> omit_safe f es.
+Proof. exact omit_safe_no_own_notdef. Qed.
+Print Assumptions omit_safe_without_own_notdef.
 
 (* All() of a file without parent is exactly the map: a permutation, so no duplicates, nothing extra *)
 Theorem all_eq :
@@ -111,20 +157,18 @@ Theorem all_lookup_agree :
 Proof. exact agree_set_mapping_codes. Qed.
 Print Assumptions all_lookup_agree.
 
-(* unmapped codes: LookupCID answers with the notdef entries of the LAST file of the chain ... *)
-Theorem lookup_unmapped_notdef_guarded :
-  forall f c, lookup_cid_opt f c = None -> lookup_cid f c = lookup_notdef (c_root f) c.
-Proof. exact notdef_root_lemma. Qed.
-Print Assumptions lookup_unmapped_notdef_guarded.
-
-(* ... and not with LookupNotdefCID of the file itself (finding cid-notdef-of-child-ignored) *)
-Definition lookup_unmapped_notdef_full : Prop :=
+(* an unmapped code gets the notdef result of the file itself (F31, fixed in /repo) ... *)
+Theorem lookup_unmapped_notdef_full :
   forall f c, lookup_cid_opt f c = None -> lookup_cid f c = lookup_notdef f c.
+Proof. exact notdef_full_lemma. Qed.
+Print Assumptions lookup_unmapped_notdef_full.
 
-Theorem lookup_unmapped_notdef_refuted :
-  exists f c, lookup_cid_opt f c = None /\ lookup_cid f c <> lookup_notdef f c.
-Proof. exact notdef_refuted. Qed.
-Print Assumptions lookup_unmapped_notdef_refuted.
+(* ... while LookupCID as it was before the F31 repair answered with the notdef entries of the LAST file
+   of the chain: child with notdefrange <20>-<60> -> 3 and a parent gave 0 for <30> *)
+Theorem lookup_unmapped_notdef_prefix_refuted :
+  exists f c, lookup_cid_opt f c = None /\ lookup_cid_prefix f c <> lookup_notdef f c.
+Proof. exact notdef_prefix_refuted. Qed.
+Print Assumptions lookup_unmapped_notdef_prefix_refuted.
 
 (* ---- NewToUnicodeFile / Lookup / All -------------------------------------- *)
 
@@ -274,3 +318,17 @@ Example ex_chain_lookup :
   c_singles child = [([66], 5); ([80], 9)] /\ c_ranges child = [] /\
   map (lookup_cid child) [[65]; [66]; [67]; [80]; [81]] = [1; 5; 3; 9; 0].
 Proof. vm_compute. repeat split; reflexivity. Qed.
+
+(* omit_safe with own notdef entries that do not shadow: the child maps 50 -> 9 and 51 -> 0, its notdef
+   range <20>-<40> does not cover them *)
+Example ex_omit_safe :
+  let parent := CFile ex_csr [([65], 1)] [] [] [] None in
+  let f := CFile [] [] [] [] [([32], [64], 7)] (Some parent) in
+  omit_safe f (code_entries ex_csr [(80, 9); (81, 0)]) /\
+  map (lookup_cid (set_mapping ex_csr f [(80, 9); (81, 0)])) [[65]; [80]; [81]; [48]; [82]] = [1; 9; 0; 7; 0].
+Proof.
+  cbn zeta. split; [|vm_compute; reflexivity].
+  intros p Hp c v Hin Ho Hv. cbn in Hp. inversion Hp; subst p. clear Hp.
+  vm_compute in Hin. destruct Hin as [H|[H|[]]]; inversion H as [[Hc Hvv]]; rewrite <- Hc, <- Hvv in *;
+    vm_compute in Hv |- *; congruence.
+Qed.
